@@ -544,7 +544,16 @@ func (x *storeExec) deliver(e engine.Event, nd *snode, sig string) bool {
 			pb = m.live // the object itself travelled (in-process hand-over), not its bytes
 			x.st.Probe("delivered-live-proto-object")
 		}
-		nd.each(func(s store.Store) { x.lib("MergeWithProto", sig, func() { store.MergeWithProto(s, pb) }) })
+		nd.each(func(s store.Store) {
+			x.lib("MergeWithProto", sig, func() {
+				if ps, ok := s.(*store.BufferedPaginatedStore); ok && x.prop == "C04" && int(e.J)%3 == 0 {
+					ps.MergeWithProto(pb) // the paginated store's own method (not part of the Store interface)
+					x.st.Probe("paginated-own-MergeWithProto")
+				} else {
+					store.MergeWithProto(s, pb)
+				}
+			})
+		})
 	}
 	for _, b := range m.content {
 		nd.model.Add(b.Index, b.Count)
